@@ -147,8 +147,17 @@ struct PairRunner {
         c.line('X', "C09 fungible-read-consumed A=" + std::string(PA::sexp) + " B=" + PB::sexp + " bytes=" + hex(w.bytes) + " result=" + r.text);
       // the B value is "the corresponding value": same abstract dump, and re-encoding reproduces the bytes
       WResult w2 = write_kind<PB>(W_BUF, dest, sizer.GetSize(dest), {});
-      if (!w2.ok || w2.bytes != w.bytes)
-        c.line('X', "C09 fungible-reencode-differs A=" + std::string(PA::sexp) + " B=" + PB::sexp + " bytes=" + hex(w.bytes) + " reencoded=" + (w2.ok ? hex(w2.bytes) : status_name(w2.err)));
+      if (!w2.ok || w2.bytes != w.bytes) {
+        // unordered containers iterate in their own order: same entries, permuted bytes (known finding K4)
+        bool permuted = false;
+        if ((PA::has_unordered || PB::has_unordered) && w2.ok && w2.bytes.size() == w.bytes.size()) {
+          TB again{};
+          RResult r2 = read_kind<PB>("buf", w2.bytes, again, w.pushed);
+          permuted = r2.ok && dump_str(again, true) == dump_str(dest, true);
+        }
+        c.line('X', std::string("C09 ") + (permuted ? "fungible-reencode-permuted-unordered" : "fungible-reencode-differs") + " A=" + std::string(PA::sexp) +
+                        " B=" + PB::sexp + " bytes=" + hex(w.bytes) + " reencoded=" + (w2.ok ? hex(w2.bytes) : status_name(w2.err)));
+      }
       if (dump_str(dest, true) != dump_str(v, true))
         c.stat("fungible reads with a differently-shaped dump");
     }
